@@ -247,6 +247,10 @@ func genCase(rng *rand.Rand) Case {
 		c.Payload = genCOSEPayload(rng)
 	}
 	c.ContentType = []string{"application/vnd.cncf.notary.payload.v1+json", "text/plain", "application/json", "a/b", "application/vnd.example+cbor; charset=utf-8"}[rng.IntN(5)]
+	if c.MT == sims.JWS && rng.IntN(5) == 0 {
+		// JWS carries any string as content type (COSE: section 7)
+		c.ContentType = []string{"json", "release-manifest+json", "JSON", " "}[rng.IntN(4)]
+	}
 	// an instant between 2002 and 2094, possibly with a sub-second part
 	sec := int64(1_010_000_000) + rng.Int64N(2_900_000_000)
 	c.TimeNanos = sec * 1e9
